@@ -125,6 +125,8 @@ pub fn main_gen(args: &[String]) {
     let maxattrs: usize = args.get(3).and_then(|s| s.parse().ok()).unwrap_or(6);
     // how many of the messages are filled up to the 16-bit length limit with many raw attributes
     let nbig: usize = args.get(4).and_then(|s| s.parse().ok()).unwrap_or(0);
+    // how many further messages carry dozens of small attributes (more than any fixed small table holds)
+    let nmany: usize = args.get(5).and_then(|s| s.parse().ok()).unwrap_or(0);
     let mut rng = StdRng::seed_from_u64(seed);
     for i in 0..n {
         let class = *[MessageClass::Request, MessageClass::Indication, MessageClass::Success, MessageClass::Error].choose(&mut rng).unwrap();
@@ -160,6 +162,16 @@ pub fn main_gen(args: &[String]) {
                 attrs.push((Box::new(RawAttribute::new_owned(AttributeType::new(ty), v.clone().into_boxed_slice())), json!({"t": ty, "raw": v})));
                 total += padded;
                 ty += 1;
+            }
+        }
+        if i >= nbig && i < nbig + nmany {
+            let m = *[17usize, 31, 32, 33, 40, 64, 65, 100, 129, 257].choose(&mut rng).unwrap();
+            attrs.truncate(3);
+            for j in 0..m as u16 {
+                let ty = if j % 2 == 0 { 0x7100 + j } else { 0x9100 + j };
+                let n = rng.gen_range(0..13);
+                let v: Vec<u8> = (0..n).map(|_| rng.gen()).collect();
+                attrs.push((Box::new(RawAttribute::new_owned(AttributeType::new(ty), v.clone().into_boxed_slice())), json!({"t": ty, "raw": v})));
             }
         }
         let mut descs = vec![];
